@@ -45,6 +45,9 @@ func vC15ReplyModelCase(emit func(map[string]any), r *rand.Rand) {
 	slots := vc15gen.VC15Records(m)
 
 	sink := &vC15Sink{internal: internal}
+	if r.Intn(3) != 0 {
+		sink.other = vC15OtherRequests
+	}
 	sink.check = func() string { return vc15gen.VC15Diff(m, snap, slots) }
 	ch := NewChain(nil)
 	req := new(dns.Msg)
@@ -84,7 +87,7 @@ func vC15ReplyModelCase(emit func(map[string]any), r *rand.Rand) {
 	}
 	line := map[string]any{
 		"coq": fmt.Sprintf("CaseReply %s %s %s %s %s %d %s", term, vC15B(direct), vC15B(internal), wrote, vC15B(fellBack), lib, vc15gen.VC15CoqBytes(string(want))),
-		"k":   fmt.Sprintf("reply-model/direct=%v/internal=%v/bytes=%v", direct, internal, wroteBytes),
+		"k":   fmt.Sprintf("reply-model/direct=%v/internal=%v/bytes=%v/interleaved=%v", direct, internal, wroteBytes, sink.other != nil),
 		"desc": map[string]any{"rcode": m.Rcode, "compress": m.Compress, "sections": []int{len(m.Question), len(m.Answer), len(m.Ns), len(m.Extra)},
 			"len": len(want), "liberr": liberr},
 		"nontrivial": wroteBytes && len(slots) >= 2 || (fellBack && direct && !internal),
